@@ -614,6 +614,17 @@ def tag_paths4(ctx, tr):
                 continue
             if tr.Eh[h2].ev not in fam and any(ab.by == h and ab.seq < tr.Eh[h2].seq for ab in tr.AB):
                 ctx.tag('unrelated_event_inline_under_timeout')
+        # ... or the time-out fired right after the drain had taken the unrelated event off its queue, before any of its handlers
+        # started: it was accepted before the await began, is not a descendant, and none of its handlers ever ran
+        for ae in tr.AE:
+            if ae.by != h or ae.outcome != 'cancelled':
+                continue
+            ab = next((b for b in reversed(tr.AB) if b.by == h and b.ev == ae.ev and b.seq < ae.seq), None)
+            if ab is None:
+                continue
+            for d in tr.DR:
+                if d.seq < ab.seq and d.ev not in fam and not any(e.ev == d.ev for e in tr.E) and ctx.expected(d.bus, d.ev):
+                    ctx.tag('unrelated_event_inline_under_timeout')
 
 
 def eval_c18(ctx, tr, finished):
